@@ -229,6 +229,21 @@ def monitor_epoch(c):
     return None
 
 
+def max_concurrent(c):
+    """largest number of different messages with stored fragments (not yet delivered) at any time"""
+    live, popped, best = set(), 0, 0
+    for o in c["ops"]:
+        if o["k"] != "push" or o["rec"]["kind"] != "hs" or o["res"][2]:
+            continue
+        for f in o["rec"]["frags"]:
+            if f["seq"] >= popped:
+                live.add(f["seq"])
+        best = max(best, len(live))
+        popped += len(o["pops"])
+        live = {x for x in live if x >= popped}
+    return best
+
+
 def has_overlap(c):
     seen = {}
     for o in c["ops"]:
@@ -553,9 +568,11 @@ def run(chk):
             first(k_live[4], "trainfrags"), MAX_COUNT + 1, first(k_live[4], "virtualms")))
 
     # (2) generated honest histories
-    for leg in ("multi", "exh", "small", "big"):
+    for leg in ("many", "multi", "exh", "small", "big"):
         for c in by_leg.get(leg, []):
             m = monitor_bounds(c) or monitor_honest(c, completeness=c["onepar"])
+            if m is None and leg == "many":
+                m = monitor_all_bytes(c)
             if m:
                 found_input = True
                 chk.finding(SITE_POP if m[0] != "push-error" else SITE_PUSH, {"monitor": m[0], "leg": leg}, m[1],
@@ -617,6 +634,28 @@ def run(chk):
             chk.count(leg, len(cs), [key_of(c) for c in nontriv],
                       samples=[{"msgs": [(m["len"], m["mtu"]) for m in c["msgs"]], "pushes": len(c["ops"]),
                                 "popped": sum(len(o["pops"]) for o in c["ops"])} for c in nontriv[-2:]])
+        mn = by_leg.get("many", [])
+        nontriv = [c for c in mn if len(c["msgs"]) >= 2 and sum(len(o["pops"]) for o in c["ops"]) == len(c["msgs"])]
+        chk.count("many", len(mn), [key_of(c) for c in nontriv],
+                  samples=[{"order": c.get("note"), "messages": len(c["msgs"]), "pushes": len(c["ops"]),
+                            "max_under_reassembly": max_concurrent(c),
+                            "popped": sum(len(o["pops"]) for o in c["ops"])} for c in nontriv[-2:]])
+
+        def hist(vals):
+            h = {}
+            for v in vals:
+                h[v] = h.get(v, 0) + 1
+            return {str(k): h[k] for k in sorted(h)}
+        chk.leg_info("many", messages_per_history=hist(len(c["msgs"]) for c in mn),
+                     max_messages_under_reassembly_at_once=hist(max_concurrent(c) for c in mn),
+                     arrival_orders=hist(c.get("note") for c in mn),
+                     fragments_per_history_max=max([sum(len(o["rec"].get("frags", [])) for o in c["ops"]) for c in mn] + [0]),
+                     note="2..16 fragmented messages per history (half with 9..16), one partition each, every byte arrives, "
+                          "far inside both limits; later messages arrive wholly before earlier ones (reverse message order / "
+                          "random permutation across all messages, with and without every fragment duplicated); "
+                          "non-trivial = every message delivered; completeness monitors + Coq correspondence")
+        for leg in ("small", "big"):
+            chk.leg_info(leg, messages_per_history=hist(len(c["msgs"]) for c in by_leg.get(leg, [])))
         ms = by_leg.get("multi", [])
         nontriv = [c for c in ms if has_overlap(c)]
         chk.count("multi", len(ms), [key_of(c) for c in nontriv],
@@ -672,7 +711,11 @@ def run(chk):
              "records; hostile: inconsistent Length, overlapping offsets, zero-length fragments, 24-bit extremes, broken "
              "tails, AdvanceTo; multi: a re-fragmenting peer - 2-3 partitions of each of 1-3 messages with losses, "
              "interleaved, incl. overlaps whose lengths sum exactly to the message length with bytes missing - "
-             "safety monitors only; limits: both resource limits reached; regress: the two formerly failing inputs, run "
+             "safety monitors only; many: 2..16 fragmented messages under reassembly at once (half of the histories 9..16), "
+             "later messages wholly before earlier ones - reverse message order / random permutation across all messages, "
+             "with and without every fragment duplicated, < 300 fragments and < 2 kB per history - completeness monitors "
+             "and Coq correspondence (the model has no bound on the number of messages other than message_seq < 65536); "
+             "limits: both resource limits reached; regress: the two formerly failing inputs, run "
              "first; boundary: the liveness boundaries and the epoch splice replayed - safety monitors must hold, the "
              "RFC-completeness monitor (every byte on the wire => delivered) and the epoch-binding monitor feed the known "
              "findings K-C12-1/2/4). "
